@@ -209,6 +209,32 @@ theorem processAll_eq_processedPrefix (ds : List (DiffObj R)) (c : SkillCfg R) (
   rw [processFrom_concrete ds c fuel k 0 _ (by omega), List.drop_zero, ← processAll_bind]
   rfl
 
+theorem createDiffObjsFrom_length (clock sf : R) :
+    ∀ (rest : List (RawObj R)) (ll : Option (RawObj R)) (last : RawObj R) (i : Nat),
+      (createDiffObjsFrom clock sf ll last i rest).length = rest.length
+  | [], _, _, _ => rfl
+  | h :: rest, ll, last, i => by
+    simp only [createDiffObjsFrom, List.length_cons, createDiffObjsFrom_length clock sf rest]
+
+/-- `create_difficulty_objects`: one difficulty object per object after the first -/
+theorem createDiffObjs_length (raws : List (RawObj R)) (clock sf : R) :
+    (createDiffObjs raws clock sf).length = raws.length - 1 := by
+  unfold createDiffObjs
+  cases raws with
+  | nil => rfl
+  | cons f rest => simp [createDiffObjsFrom_length]
+
+/-- the prepared difficulty-object list has one entry per object after the first -/
+theorem prepared_diffObjs_length (A : Ar R S) (st : Settings R) (take : Nat) (raw : List (Obj R S))
+    (p : Prepared R S) (hp : prepareAll A st take raw = .ok p) : p.diffObjs.length = raw.length - 1 := by
+  obtain ⟨os, c, sc, tp, h, hl, _⟩ := Rosu.ConvOsu.prepare_spec A st.cs st.arWindow st.clockRate st.stackLeniency
+    st.reflection st.version take raw
+  unfold prepareAll at hp
+  rw [h] at hp
+  simp only [SkillOps.Res.ok.injEq] at hp
+  subst hp
+  simp only [createDiffObjs_length, List.length_map, hl]
+
 /-- what a successful one-shot run went through -/
 theorem osuDifficulty_ok (A : Ar R S) (E : Rosu.SliderEvents.Arith R) (fuel : Nat) (st : Settings R) (take : Nat)
     (objs : List (PObj R S)) (a : Attrs R) (h : osuDifficulty A E fuel st take objs = .ok a) :
